@@ -671,6 +671,10 @@ func (c *Ctx) checkNoBucketMutation(rule string) {
 								if bucketSlice(a.Type()) {
 									target, what = a, "sort."+nm+" of"
 								}
+								// a Buckets value (interface) sorted directly: sorts whatever slice it wraps
+								if n, isN := a.Type().(*types.Named); isN && n.Obj().Name() == "Buckets" {
+									target, what = a, "sort."+nm+" of"
+								}
 							}
 						}
 						if _, m := ifaceCall(x); m != nil && m.Name() == "Swap" {
